@@ -34,7 +34,7 @@ type Sub struct {
 	data   map[string][]byte // destination store: cid.KeyString -> bytes
 	Writes int
 	Hooks  []HookCall
-	Scoped []HookCall // calls of hooks handed out by ScopedHook
+	Scoped []HookCall             // calls of hooks handed out by ScopedHook
 	Events []dagsync.SyncFinished // reference listener, registered at construction
 	evDone chan struct{}
 	cancel context.CancelFunc
@@ -47,15 +47,56 @@ type Sub struct {
 	// OnWriteOpen: called whenever the subscriber opens a writer of the destination store (may block)
 	OnWriteOpen func()
 	libHook     dagsync.BlockHookFunc
+	// store write fault: the wfOrd-th writer opened since ArmWriteFault accepts wfAfter bytes and then fails
+	writerOrd, wfOrd, wfAfter int
+	// prevFailAt: if >= 0, the lookup function given to dagsync.MakeGeneralBlockHook fails at this call (counted since ArmPrevFail)
+	prevOrd, prevFailAt int
+	WriteFaults         int // writes that were failed
+}
+
+type failingWriter struct {
+	buf  *bytes.Buffer
+	left int
+	s    *Sub
+}
+
+func (f *failingWriter) Write(b []byte) (int, error) {
+	if len(b) <= f.left {
+		f.left -= len(b)
+		return f.buf.Write(b)
+	}
+	n, _ := f.buf.Write(b[:f.left])
+	f.left = 0
+	f.s.mu.Lock()
+	f.s.WriteFaults++
+	f.s.mu.Unlock()
+	return n, fmt.Errorf("injected store write failure (no space left on device)")
+}
+
+// ArmWriteFault makes the ord-th store writer opened from now on fail after it has accepted `after` bytes (ord < 0 disarms).
+func (s *Sub) ArmWriteFault(ord, after int) {
+	s.mu.Lock()
+	s.writerOrd, s.wfOrd, s.wfAfter = 0, ord, after
+	s.mu.Unlock()
 }
 
 // NewSub builds the destination link system and the subscriber. withRecv adds an announce receiver (no libp2p host: direct announcements only).
 func NewSub(w *World, withRecv bool, opts ...dagsync.Option) (*Sub, error) {
-	s := &Sub{W: w, data: map[string][]byte{}, failAt: -1}
+	s := &Sub{W: w, data: map[string][]byte{}, failAt: -1, wfOrd: -1, prevFailAt: -1}
 	s.Lsys = cidlink.DefaultLinkSystem()
 	s.Lsys.TrustedStorage = w.TrustedStorage
 	if w.LibraryHook {
-		s.libHook = dagsync.MakeGeneralBlockHook(func(ad cid.Cid) (cid.Cid, error) { return s.NextOf(ad), nil })
+		s.libHook = dagsync.MakeGeneralBlockHook(func(ad cid.Cid) (cid.Cid, error) {
+			s.mu.Lock()
+			ord := s.prevOrd
+			s.prevOrd++
+			fail := s.prevFailAt >= 0 && ord == s.prevFailAt
+			s.mu.Unlock()
+			if fail {
+				return cid.Undef, fmt.Errorf("previous-advertisement lookup failure injected at call %d", ord)
+			}
+			return s.NextOf(ad), nil
+		})
 	}
 	s.Lsys.StorageReadOpener = func(_ ipld.LinkContext, l ipld.Link) (io.Reader, error) {
 		s.mu.Lock()
@@ -74,7 +115,20 @@ func NewSub(w *World, withRecv bool, opts ...dagsync.Option) (*Sub, error) {
 			on()
 		}
 		var buf bytes.Buffer
-		return &buf, func(l ipld.Link) error {
+		s.mu.Lock()
+		ord := s.writerOrd
+		s.writerOrd++
+		failAfter := -1
+		if s.wfOrd >= 0 && ord == s.wfOrd {
+			failAfter = s.wfAfter
+		}
+		s.mu.Unlock()
+		var wr io.Writer = &buf
+		if failAfter >= 0 {
+			wr = &failingWriter{buf: &buf, left: failAfter, s: s}
+		}
+		// like a store that writes to a temporary file and renames it on commit: whatever was written is what a commit publishes
+		return wr, func(l ipld.Link) error {
 			s.mu.Lock()
 			s.data[l.(cidlink.Link).Cid.KeyString()] = append([]byte(nil), buf.Bytes()...)
 			s.Writes++
@@ -184,13 +238,36 @@ func (s *Sub) SetOnHook(f func(peer.ID, cid.Cid)) { s.mu.Lock(); s.OnHook = f; s
 // ArmHook resets the hook ordinal; failAt < 0 disables the injected failure.
 func (s *Sub) ArmHook(failAt int) { s.mu.Lock(); s.hookOrd, s.failAt = 0, failAt; s.mu.Unlock() }
 
-func (s *Sub) Has(c cid.Cid) bool { s.mu.Lock(); defer s.mu.Unlock(); _, ok := s.data[c.KeyString()]; return ok }
+// ArmPrevFail resets the call count of the library hook's lookup function; failAt < 0 disables its injected failure.
+func (s *Sub) ArmPrevFail(failAt int) {
+	s.mu.Lock()
+	s.prevOrd, s.prevFailAt = 0, failAt
+	s.mu.Unlock()
+}
+
+func (s *Sub) Has(c cid.Cid) bool {
+	s.mu.Lock()
+	defer s.mu.Unlock()
+	_, ok := s.data[c.KeyString()]
+	return ok
+}
 
 // Get returns the stored bytes of a block (nil if absent).
-func (s *Sub) Get(c cid.Cid) []byte { s.mu.Lock(); defer s.mu.Unlock(); return append([]byte(nil), s.data[c.KeyString()]...) }
+func (s *Sub) Get(c cid.Cid) []byte {
+	s.mu.Lock()
+	defer s.mu.Unlock()
+	return append([]byte(nil), s.data[c.KeyString()]...)
+}
 
 // Put pre-stores a block in the destination store.
-func (s *Sub) Put(c cid.Cid, b []byte) { s.mu.Lock(); s.data[c.KeyString()] = append([]byte(nil), b...); s.mu.Unlock() }
+func (s *Sub) Put(c cid.Cid, b []byte) {
+	s.mu.Lock()
+	s.data[c.KeyString()] = append([]byte(nil), b...)
+	s.mu.Unlock()
+}
+
+// Delete removes a block from the destination store (the consumer is done with it).
+func (s *Sub) Delete(c cid.Cid) { s.mu.Lock(); delete(s.data, c.KeyString()); s.mu.Unlock() }
 
 // HookCids returns the hook log from index from on.
 func (s *Sub) HookCids(from int) []cid.Cid {
